@@ -109,15 +109,23 @@ def run(ctx):
         # Some(resp) only after payload.as_ref()? succeeded
         sp = some_points(hr)
         def payload_present(d, v, vals):
-            if not (isinstance(d, tuple) and d[0] == 'discr' and v == 0):
+            # the Some edge of a test on self.payload (`?` is expanded into that match by vlib/combinators.py; an explicit
+            # match / if let reads the same)
+            if not (isinstance(d, tuple) and d[0] == 'discr'):
                 return False
             x = peel(d[1], unwraps=False)
-            if not is_call(x, r'Try>::branch$'):
+            if is_call(x, r'Try>::branch$'):
+                if v != 0:
+                    return False
+                x = peel(x[2][0], unwraps=False)
+            elif v != 1:
                 return False
-            y = peel(x[2][0], unwraps=False)
-            if not is_call(y, r'Option::<T>::as_ref$'):
-                return False
-            z = peel(y[2][0], unwraps=False)
+            y = x
+            if is_call(y, r'Option::<T>::as_(ref|mut|deref)$'):
+                y = peel(y[2][0], unwraps=False)
+            while isinstance(y, tuple) and y[0] == 'ref':
+                y = peel(y[1], unwraps=False)
+            z = y
             if isinstance(z, tuple) and z[0] == 'entry':
                 z = z[1]
             return Fn.path_of(z)[-1:] == [('f', 'payload')] and Fn.root_of(z) == ('deref', ('param', 1))
